@@ -417,8 +417,10 @@ func (l *lawRun) random() {
 // ---------------------------------------------------------------------------
 // independence of derived objects
 
-var derivations = []string{"copy", "rc", "sub", "subcirc", "join"}
-var mutators = []string{"rc-inplace", "SetSequence", "SetQualities", "SetFeatures", "SetAttribute", "nested-edit", "DeleteAttribute", "Join-inplace", "Recycle"}
+// derivations: "-cleared" = the source was emptied with Clear()/ClearQualities() first (zero-length
+// slices that keep their capacity), "-prealloc" = the source is NewEmptyBioSequence(n>0)
+var derivations = []string{"copy", "rc", "sub", "subcirc", "join", "copy-cleared", "rc-cleared", "join-cleared", "copy-prealloc", "join-prealloc"}
+var mutators = []string{"rc-inplace", "SetSequence", "SetQualities", "SetFeatures", "SetAttribute", "nested-edit", "DeleteAttribute", "Join-inplace", "Recycle", "Append", "Clear"}
 
 // mutate applies one mutator to the real object and to its model; it returns
 // false when the object is dead afterwards.
@@ -476,6 +478,40 @@ func mutate(c *core.Ctx, mut string, O *obiseq.BioSequence, s *shadow) (alive bo
 		T := obiseq.NewBioSequence("t", cloneBytes(t), "")
 		O.Join(T, true)
 		s.nuc = append(s.nuc, t...)
+	case "Append":
+		// the append-style mutators; qualities follow when the object has some (or is empty and gets some)
+		k := 1 + c.Rng.Intn(20)
+		if len(s.nuc)+k > 2600 {
+			return true
+		}
+		data := gen.DNAFull(c.Rng, k, 0)
+		withQ := s.hasQual() || (len(s.nuc) == 0 && c.Rng.Intn(2) == 0)
+		switch c.Rng.Intn(3) {
+		case 0:
+			O.Write(cloneBytes(data))
+		case 1:
+			O.WriteString(string(data))
+		default:
+			for _, b := range data {
+				O.WriteByte(b)
+			}
+		}
+		s.nuc = append(cloneBytes(s.nuc), data...)
+		if withQ {
+			q := gen.Quals(c.Rng, k)
+			if c.Rng.Intn(2) == 0 {
+				O.WriteQualities(cloneBytes(q))
+			} else {
+				for _, b := range q {
+					O.WriteByteQualities(b)
+				}
+			}
+			s.qual = append(cloneBytes(s.qual), q...)
+		}
+	case "Clear":
+		O.Clear()
+		O.ClearQualities()
+		s.nuc, s.qual = nil, nil
 	case "Recycle":
 		O.Recycle()
 		return false
@@ -598,8 +634,11 @@ func (l *lawRun) sharing(deriv, mut string, mutateDerived bool, n int) {
 	if c.Rng.Intn(2) == 0 {
 		x.pm = gen.Mismatches(c.Rng, n, 3)
 	}
-	if deriv == "join" {
+	if strings.HasPrefix(deriv, "join") {
 		x.qual = nil
+	}
+	if strings.HasSuffix(deriv, "-prealloc") {
+		x = &shadow{ann: map[string]any{}}
 	}
 	dir := "source"
 	if mutateDerived {
@@ -608,11 +647,24 @@ func (l *lawRun) sharing(deriv, mut string, mutateDerived bool, n int) {
 	ctx := map[string]any{"x": x.describe(), "derivation": deriv, "mutator": mut, "mutated": dir}
 	l.guard("sharing:"+deriv+":"+mut, ctx, func() {
 		drainPool() // trials are independent of what earlier trials left in the slice pool
-		X := build("x", x, "")
+		var X *obiseq.BioSequence
+		switch {
+		case strings.HasSuffix(deriv, "-prealloc"):
+			pre := []int{1 + c.Rng.Intn(64), 300, 1024, 1500}[c.Rng.Intn(4)]
+			ctx["preallocate"] = pre
+			X = obiseq.NewEmptyBioSequence(pre)
+		case strings.HasSuffix(deriv, "-cleared"):
+			X = build("x", x, "")
+			X.Clear()
+			X.ClearQualities()
+			x.nuc, x.qual = nil, nil
+		default:
+			X = build("x", x, "")
+		}
 		var D *obiseq.BioSequence
 		var d *shadow
 		withFeat := true
-		switch deriv {
+		switch strings.TrimSuffix(strings.TrimSuffix(deriv, "-cleared"), "-prealloc") {
 		case "copy":
 			D, d = X.Copy(), x.clone()
 		case "rc":
@@ -659,6 +711,25 @@ func (l *lawRun) sharing(deriv, mut string, mutateDerived bool, n int) {
 				ctx["expected"] = ts.describe()
 				l.rep.violate("mutator-value:"+mut, "the mutated object does not show the new value", ctx)
 			}
+		}
+		// second phase: append to the object that was not mutated. The mutated one must not
+		// change; the appended one must show its new value, also after the pool was drawn from
+		// when the mutated one was recycled.
+		mutate(c, "Append", other, os)
+		if !alive {
+			fresh = append(fresh, poolDraws(c, len(os.nuc))...)
+		}
+		l.evals++
+		if df := diff(other, os, true); len(df) > 0 {
+			det := map[string]any{"fields": df, "observed": describe(other), "expected": os.describe()}
+			for k, v := range ctx {
+				det[k] = v
+			}
+			l.rep.violate("sharing:"+deriv+":"+mut+"+Append:"+victim, fmt.Sprintf("after the %s was mutated (%s), appending to the %s does not give the appended value", dir, mut, victim), det)
+		}
+		if alive {
+			l.unchanged("sharing:"+deriv+":"+mut+"+Append:"+dir, target, ts,
+				fmt.Sprintf("appending to the %s changed the %s", victim, dir), ctx)
 		}
 		for _, f := range fresh {
 			if f.String() == "" {
